@@ -71,6 +71,11 @@ pub struct GenCfg {
     pub generic_into: bool,
     /// percent chance that the definition is produced through a `macro_rules!` invocation
     pub macro_pct: u32,
+    /// percent chance (per definition) that primitive field types are spelled `::core::primitive::T` here and there: the
+    /// same type under tokens that no table of primitive names recognises
+    pub respell_pct: u32,
+    /// percent chance that one struct / variant is widened to 13..25 fields (beyond tuple impls and other arity-12 limits)
+    pub wide_pct: u32,
 }
 
 impl GenCfg {
@@ -121,6 +126,8 @@ impl GenCfg {
             disc_pct: 30,
             generic_into: true,
             macro_pct: 8,
+            respell_pct: 0,
+            wide_pct: 0,
         }
     }
     /// concrete (non-generic) types with plain attributes: the base for behavioural checks
@@ -138,6 +145,8 @@ impl GenCfg {
         c.bounds = false;
         c.type_expr = false;
         c.where_clause = false;
+        c.respell_pct = 6;
+        c.wide_pct = 3;
         c
     }
 }
@@ -871,10 +880,18 @@ pub fn build(d: &mut Dna, cfg: &GenCfg) -> Built {
                 .collect();
             let nf = fields.len() as i64;
             let mut low_rank = false;
+            let mut ignored_rank_collides = false;
             for f in fields.iter_mut() {
                 for a in f.attrs.iter_mut() {
+                    // the rank of an ignored field takes part in nothing: it may repeat the rank of a compared field
+                    let ignored_here = a.ignore();
                     for (p, _) in a.params.iter_mut() {
                         if let FParam::Rank(r) = p {
+                            if ignored_here && !taken.is_empty() && d.chance(50) {
+                                *r = *d.choose(&taken);
+                                ignored_rank_collides = true;
+                                continue;
+                            }
                             let mut v = if d.chance(40) { *d.choose(&special) } else { d.pick(11) as i64 - 5 };
                             if v == i64::MAX >> 1 {
                                 v = isize::MAX as i64;
@@ -904,6 +921,9 @@ pub fn build(d: &mut Dna, cfg: &GenCfg) -> Built {
             }
             if low_rank {
                 classes.push("rank_explicit_in_default_range");
+            }
+            if ignored_rank_collides {
+                classes.push("ignored_field_repeats_a_rank");
             }
         }
 
@@ -1250,7 +1270,7 @@ pub fn build(d: &mut Dna, cfg: &GenCfg) -> Built {
             Kind::Enum if nvariants == 0 => vec![],
             Kind::Enum => {
                 let mut v = vec!["u8", "i8", "u16", "i32", "u64", "isize", "C", "i128", "usize", "u32", "i16", "i64", "u128"];
-                v.extend(["align(4)", "align(2)", "C, align(8)"]);
+                v.extend(["align(4)", "align(2)", "C, align(8)", "u128, align(16)", "i16, align(4)", "align(8), u32"]);
                 if !all_unit {
                     // `repr(C, u8)` is only legal on enums with fields
                     v.extend(["C, u8", "u8, C"]);
@@ -1549,6 +1569,76 @@ pub fn build(d: &mut Dna, cfg: &GenCfg) -> Built {
                 spec.gens.consts.push(ConstParam { name, ty: ty.into(), default, inst: inst.into() });
                 classes.push("const_param_other_type");
             }
+        }
+    }
+    // (tail decisions) a `where` keyword without predicates; other white space inside multi-token Into targets
+    if spec.gens.where_preds.is_empty() && d.chance(4) {
+        spec.gens.empty_where = true;
+        classes.push("empty_where_clause");
+    }
+    if has(Tr::Into) {
+        for a in spec.traits.iter_mut().filter(|a| a.tr == Tr::Into) {
+            if d.chance(30) {
+                a.sp |= 0x10;
+            }
+        }
+        for v in spec.variants.iter_mut() {
+            for f in v.fields.iter_mut() {
+                for a in f.attrs.iter_mut().filter(|a| a.tr == Tr::Into) {
+                    if d.chance(30) {
+                        a.sp |= 0x10;
+                    }
+                }
+            }
+        }
+    }
+    // (tail decision) a wide struct or variant: copies of its plain fields under new names until there are 13, 14, 23 or 25.
+    // Not with positional designations (Deref, Into: a sole field would stop being sole) nor with a type-level expression
+    let low_ranks = spec.all_fields().any(|f| f.attrs.iter().any(|a| a.rank().map(|r| r < isize::MIN as i64 + 64).unwrap_or(false)));
+    let transparent = spec.repr.as_deref().map(|r| r.contains("transparent")).unwrap_or(false);
+    if cfg.wide_pct > 0 && spec.kind != Kind::Union && !want_unsized && !transparent && !low_ranks && !has(Tr::Deref) && !has(Tr::Into) && spec.traits.iter().all(|a| a.expr().is_none()) && d.chance(cfg.wide_pct) {
+        let cands: Vec<usize> = (0..spec.variants.len()).filter(|i| spec.variants[*i].fields.iter().any(|f| f.default_expect.is_none() && f.ty.params.is_empty())).collect();
+        if !cands.is_empty() {
+            let vi = *d.choose(&cands);
+            let target = [13usize, 14, 23, 25][d.pick(4)];
+            let v = &mut spec.variants[vi];
+            let protos: Vec<FieldSpec> = v.fields.iter().filter(|f| f.default_expect.is_none() && f.ty.params.is_empty()).cloned().collect();
+            let mut k = 0;
+            while v.fields.len() < target {
+                let mut f = protos[k % protos.len()].clone();
+                // keep ignore and method, drop what must be unique within a variant
+                for a in f.attrs.iter_mut() {
+                    a.params.retain(|(p, _)| matches!(p, FParam::Ignore(_) | FParam::Method(_)));
+                }
+                f.attrs.retain(|a| !a.params.is_empty());
+                f.raw.clear();
+                f.name = if v.shape == Shape::Named { Some(format!("w{k}")) } else { None };
+                // (appended, so that the positional default ranks of the existing fields stay what they are)
+                v.fields.push(f);
+                k += 1;
+            }
+            classes.push("more_than_12_fields");
+        }
+    }
+    // (last tail decision) qualified spellings of primitive field types. Not where educe is documented to look at the
+    // spelling: a field with a Default expression (literals are converted unless the type is *written* as the literal's
+    // own), and any field of a type with Into targets (the same-type search compares declared types as written)
+    if cfg.respell_pct > 0 && !has(Tr::Into) && d.chance(cfg.respell_pct) {
+        let mut any = false;
+        for v in spec.variants.iter_mut() {
+            for f in v.fields.iter_mut() {
+                let prim = matches!(f.ty.src.as_str(), "u8" | "i16" | "u64" | "bool" | "char" | "u32" | "i64" | "u16" | "f32" | "f64" | "i128" | "usize");
+                let has_expr = f.default_expect.is_some() || f.attrs.iter().any(|a| a.params.iter().any(|(p, _)| matches!(p, FParam::Expr(_))));
+                if prim && !has_expr && d.chance(50) {
+                    let re = format!("::core::primitive::{}", f.ty.src);
+                    f.ty.src = re.clone();
+                    f.ty.inst = re;
+                    any = true;
+                }
+            }
+        }
+        if any {
+            classes.push("primitive_field_type_spelled_with_a_path");
         }
     }
     if spec.variants.iter().any(|v| v.fields.iter().any(|f| f.name.as_deref().map(|n| n.starts_with("r#")).unwrap_or(false))) {
